@@ -205,7 +205,11 @@ fn gen_pph(rng: &mut Rng) -> Vec<u8> {
     let fl = match rng.below(4) { 0 => 0, 1 => 0x80, 2 => rng.u8() & 0xf0, _ => rng.u8() };
     v.push(fl);
     v.extend(rng.bytes(8));
-    if fl & 0x80 == 0 && rng.chance(3, 4) { v.extend([0u8; 12]); v.extend(rng.bytes(4)); } else { v.extend(rng.bytes(16)); }
+    // IPv4 peers carry 12 zero octets + the address; IPv6 peers any 16 octets – including ::/96
+    // (loopback ::1, IPv4-compatible), which must still be reported as IPv6 when the V flag is set
+    if (fl & 0x80 == 0 && rng.chance(3, 4)) || (fl & 0x80 != 0 && rng.chance(1, 4)) { v.extend([0u8; 12]); v.extend(rng.bytes(4)); }
+    else if rng.chance(1, 8) { let mut a = rng.bytes(16); for b in a.iter_mut().take(rng.usize(1, 15)) { *b = 0; } v.extend(a); }
+    else { v.extend(rng.bytes(16)); }
     v.extend((rng.edgy(u32::MAX as u64) as u32).to_be_bytes());
     v.extend(rng.bytes(4));
     // timestamp: mostly sane, sometimes leap-second-ish or huge microseconds
@@ -276,7 +280,7 @@ pub fn gen_open(rng: &mut Rng) -> Vec<u8> {
 fn gen_tlv(rng: &mut Rng, string_only: bool) -> Vec<u8> {
     let typ: u16 = if string_only { 0 } else { *rng.pick(&[0u16, 1, 2, 3, 4, 5, 77, 65535]) };
     // rarely a TLV at the top of the u16 length range (position arithmetic must not be done in u16)
-    let n = if rng.chance(1, 400) { *rng.pick(&[65531usize, 65532, 65533, 65535]) } else { rng.usize(0, 12) };
+    let n = if rng.chance(1, 3000) { *rng.pick(&[65531usize, 65532, 65533, 65535]) } else { rng.usize(0, 12) };
     let mut v = typ.to_be_bytes().to_vec();
     v.extend((n as u16).to_be_bytes());
     v.extend(rng.bytes(n));
@@ -460,6 +464,9 @@ impl Prop for C15 {
             let p = field("pph=").unwrap_or_default();
             let want = format!("{}:{}:{}:", b[6], b[7], hex(&b[8..16]));
             if !p.starts_with(&want) { return Err("per-peer header type/flags/distinguisher differ from the bytes".into()); }
+            // the peer address: all 16 octets when the V flag is set, the last four otherwise
+            let addr = if b[7] & 0x80 != 0 { hex(&b[16..32]) } else { hex(&b[28..32]) };
+            if p.split(':').nth(3) != Some(addr.as_str()) { return Err(format!("per-peer header address should be {} (V flag {})", addr, b[7] >> 7)); }
             let asn = u32::from_be_bytes([b[32], b[33], b[34], b[35]]);
             if !p.contains(&format!(":{}:{}:", asn, hex(&b[36..40]))) { return Err("per-peer header ASN / BGP id differ from the bytes".into()); }
         }
